@@ -526,19 +526,22 @@ func (c *Conn) IsClient() bool {
 // readDatagram 从底层 UDP socket 读取一个完整的数据报。
 func (c *Conn) readDatagram() error {
 	buf := make([]byte, maxCiphertext+recordHeaderLen)
-	n, addr, err := c.pconn.ReadFrom(buf)
-	if err != nil {
-		return err
+	for {
+		n, addr, err := c.pconn.ReadFrom(buf)
+		if err != nil {
+			return err
+		}
+		// 验证地址：只接受对端地址的数据报。用循环而不是递归忽略非对端报文：
+		// 否则任何人连续发来的报文每个都占用一层调用栈。
+		if c.remoteAddr != nil && addr.String() != c.remoteAddr.String() {
+			continue
+		}
+		if c.remoteAddr == nil {
+			c.remoteAddr = addr // 首次收到报文时设置对端地址
+		}
+		c.rawInputBuf = buf[:n]
+		return nil
 	}
-	// 验证地址：只接受对端地址的数据报
-	if c.remoteAddr != nil && addr.String() != c.remoteAddr.String() {
-		return c.readDatagram() // 忽略非对端报文，继续读
-	}
-	if c.remoteAddr == nil {
-		c.remoteAddr = addr // 首次收到报文时设置对端地址
-	}
-	c.rawInputBuf = buf[:n]
-	return nil
 }
 
 // =============================================================================
